@@ -93,8 +93,11 @@ def cross_correlation_shift(
     F_ref = im_ref if fft_input else xp.fft.fft2(im_ref)
     F_im = im if fft_input else xp.fft.fft2(im)
 
-    # Correlation
+    # Correlation; the zero-frequency term (N^2 mean_ref mean_im) only adds a constant to the
+    # correlation: it carries no shift information but swamps the peak in the working precision
+    # for images with a large mean, so it is dropped
     cc = F_ref * xp.conj(F_im)
+    cc[0, 0] = 0
     cc_real = xp.real(xp.fft.ifft2(cc))
 
     # the max_shift mask only restricts the search for the coarse peak: the parabolic refinement
@@ -105,7 +108,7 @@ def cross_correlation_shift(
         y = np.fft.fftfreq(cc.shape[1], 1 / cc.shape[1])
         mask = x[:, None] ** 2 + y[None, :] ** 2 >= max_shift**2
         cc_search = cc_real.copy()
-        cc_search[mask] = 0.0
+        cc_search[mask] = -xp.inf
 
     # Coarse peak
     peak = xp.unravel_index(xp.argmax(cc_search), cc_search.shape)
@@ -119,7 +122,8 @@ def cross_correlation_shift(
     vy = cc_real[x0, y_inds]
 
     def parabolic_peak(v):
-        return (v[2] - v[0]) / (4 * v[1] - 2 * v[2] - 2 * v[0])
+        denom = 4 * v[1] - 2 * v[2] - 2 * v[0]
+        return (v[2] - v[0]) / denom if denom != 0 else 0.0
 
     dx = parabolic_peak(vx)
     dy = parabolic_peak(vy)
@@ -199,7 +203,10 @@ def align_images_fourier_torch(
     Returns: xy_shift (tensor length 2)
     """
     device = G1.device
+    # the zero-frequency term only adds a constant to the correlation (no shift information) but
+    # swamps the peak in single precision for images with a large mean: it is dropped
     cc = G1 * G2.conj()
+    cc[0, 0] = 0
     cc_real = torch.fft.ifft2(cc).real
 
     # local max (integer)
